@@ -42,7 +42,7 @@ RULE = ('every estimator class of the package (static table from the translator,
         'float / str / RandomState / Generator; distinct = distinct (class, parameters, history, target)')
 ASSUMPTIONS = [
     'arrays passed to a prange kernel under different names do not alias (callers allocate them separately)',
-    'Cython gives a scalar assigned in a prange body thread-private storage and an in-place updated scalar an OpenMP reduction',
+    'OpenMP implements the private / lastprivate / reduction clauses that Cython emits (the clauses themselves are checked on the generated C++ on every run)',
     'numpy.random.RandomState(seed) is a deterministic function of the seed; numpy global generator state is part of the input (seeded by the caller)',
     'parameter objects supplied by the user (embedding_method, solver, algorithm) are themselves history independent (each class has its own obligation)',
     'BLAS / ARPACK kernels are deterministic for a fixed start vector and thread count; float reductions (reported in the evidence) may differ in rounding between thread counts',
@@ -607,6 +607,30 @@ def crs_cases(ctx):
 
 
 # ------------------------------------------------------------------------------------------------
+# Algorithm.set_params: which names are accepted (run lines, exact)
+# ------------------------------------------------------------------------------------------------
+def setparam_cases(ctx, names, static):
+    out = []
+    for name in names:
+        if name not in static:
+            continue
+        d = _GEN['descs'][name]
+        obj = W.construct(name, SPEC[name]['params'](ctx.rng))
+        cand = list(d['params']) + [i['attr'] for i in d['init'][:3]] + ['no_such_parameter']
+        for p in dict.fromkeys(cand):
+            try:
+                cur = vars(obj).get(p)
+                obj.set_params({p: cur})
+                impl = 'ok'
+            except ValueError:
+                impl = 'err ValueError'
+            out.append(Case(('setparam', name, p), {'entry': name + '.set_params', 'param': p},
+                            'c16.setparam %s %s' % (name, p), impl, None, impl == 'ok',
+                            {'f': 'set_params', 'cls': name, 'param': p}))
+    return out
+
+
+# ------------------------------------------------------------------------------------------------
 # seeded data generators (sknetwork/data/models.py)
 # ------------------------------------------------------------------------------------------------
 def model_jobs(rng):
@@ -699,6 +723,83 @@ def sweep(ctx, est_jobs, fn_jobs, thread_counts, repeats, inproc):
                 md = _maxdiff(okr[ref_key][i]['state'], inproc[i]['state'])
                 bad.append((job, 'process-differs', {'threads': ref_key[0], 'attrs': d, 'max_rel_diff': md}))
     return bad, res
+
+
+# ------------------------------------------------------------------------------------------------
+# contract of the external compiler: the OpenMP clauses Cython emits for each prange loop
+# ------------------------------------------------------------------------------------------------
+def cython_clauses(pyx_path, pxd_dir):
+    """Translate one .pyx to C++ with the Cython of the build (cached by content hash) and return, per
+    `#pragma omp parallel` / `#pragma omp for` pair in source order, the variables of the (first|last)private
+    clauses and the reductions."""
+    import hashlib
+    import re
+    import shutil
+    src = open(pyx_path, 'rb').read()
+    h = hashlib.sha256(src).hexdigest()[:16]
+    d = os.path.join(core.CACHE, 'c16_cython')
+    os.makedirs(d, exist_ok=True)
+    out = os.path.join(d, os.path.basename(pyx_path)[:-4] + '.' + h + '.json')
+    if os.path.exists(out):
+        return json.load(open(out))
+    work = os.path.join(d, 'work_' + h)
+    os.makedirs(work, exist_ok=True)
+    shutil.copy(pyx_path, os.path.join(work, os.path.basename(pyx_path)))
+    for f in os.listdir(os.path.dirname(pyx_path)):
+        if f.endswith('.pxd'):
+            shutil.copy(os.path.join(os.path.dirname(pyx_path), f), os.path.join(work, f))
+    cpp = os.path.join(work, 'out.cpp')
+    r = subprocess.run(['/venv/bin/cython', '--cplus', '-3', os.path.basename(pyx_path), '-o', cpp], cwd=work,
+                       stdout=subprocess.PIPE, stderr=subprocess.STDOUT, text=True, timeout=300)
+    if r.returncode != 0 or not os.path.exists(cpp):
+        shutil.rmtree(work, ignore_errors=True)
+        raise core.ToolFailure('cython failed on %s: %s' % (pyx_path, r.stdout[-500:]))
+    loops = []
+    cur = None
+    for ln in open(cpp, errors='replace'):
+        t = ln.strip()
+        if t.startswith('#pragma omp parallel'):
+            cur = {'reductions': sorted('%s:%s' % (op, v) for op, v in re.findall(r'reduction\(([^:()]+):__pyx_v_(\w+)\)', t)),
+                   'private': []}
+        elif t.startswith('#pragma omp for') and cur is not None:
+            cur['private'] = sorted(set(re.findall(r'(?:first|last)?private\(__pyx_v_(\w+)\)', t)))
+            cur['reductions'] = sorted(set(cur['reductions']) | set('%s:%s' % (op, v) for op, v in re.findall(r'reduction\(([^:()]+):__pyx_v_(\w+)\)', t)))
+            loops.append(cur)
+            cur = None
+    shutil.rmtree(work, ignore_errors=True)
+    json.dump(loops, open(out, 'w'))
+    # keep the cache small
+    fs = sorted((os.path.join(d, f) for f in os.listdir(d) if f.endswith('.json')), key=os.path.getmtime)
+    for f in fs[:-40]:
+        os.remove(f)
+    return loops
+
+
+def cython_contract(ctx):
+    """The descriptor says which scalars are private / reductions *because Cython makes them so*: check it on the C++
+    that this Cython emits for the working tree's source."""
+    by_file = {}
+    for l in _GEN['loops']:
+        by_file.setdefault(l['file'], []).append(l)
+    report = {}
+    for rel, ls in by_file.items():
+        path = os.path.join(ctx.overlay_root, 'sknetwork', rel)
+        emitted = cython_clauses(path, os.path.dirname(path))
+        if len(emitted) != len(ls):
+            ctx.broken('cython-contract:' + rel, {'loops_in_descriptor': len(ls), 'omp_for_in_cpp': len(emitted)},
+                       {'obligation': 'cython-contract', 'file': rel})
+            continue
+        for l, em in zip(sorted(ls, key=lambda x: x['line']), emitted):
+            want_priv = sorted({l['var']} | {a[1] for a in l['accs'] if a[0] == 'priv'})
+            want_red = sorted('%s:%s' % (a[2], a[1]) for a in l['accs'] if a[0] == 'reduction')
+            ok = want_priv == em['private'] and want_red == em['reductions']
+            report[l['name']] = {'private': em['private'], 'reductions': em['reductions'], 'agrees': ok}
+            ctx.count('cython-contract:' + ('agrees' if ok else 'differs'))
+            if not ok:
+                ctx.broken('cython-contract:' + l['name'], {'descriptor_private': want_priv, 'emitted_private': em['private'],
+                                                          'descriptor_reductions': want_red, 'emitted_reductions': em['reductions']},
+                           {'obligation': 'cython-contract', 'loop': l['name']})
+    ctx.extra['cython_openmp_clauses'] = report
 
 
 # ------------------------------------------------------------------------------------------------
@@ -841,9 +942,10 @@ def run(ctx):
     phases = {}
     ctx.extra['phase_s'] = phases
     obligations(ctx)
+    cython_contract(ctx)
     phases['obligations'] = round(time.time() - t0, 1)
     names, static = _class_lists(ctx)
-    cases = crs_cases(ctx)
+    cases = crs_cases(ctx) + setparam_cases(ctx, names, static)
     # corpus first
     for item in _corpus(ctx):
         job = item['job']
